@@ -23,8 +23,10 @@ tests="skipped"
 if [ $notests -eq 0 ]; then
   files=$(git diff --name-only | sed 's/\.py$/_test.py/' | while read f; do [ -f $f ] && echo $f; done)
   # full suite (the patch must pass all of it)
-  PYTHONPATH=$S timeout 7200 /venv/bin/python -m pytest -q -p no:cacheprovider --timeout=900 -x -n 8 dinosaur > $S/.tests.log 2>&1 || \
-  PYTHONPATH=$S timeout 7200 /venv/bin/python -m pytest -q -p no:cacheprovider --timeout=900 dinosaur > $S/.tests.log 2>&1
-  tests=$(tail -1 $S/.tests.log | tr -d '=' | sed 's/^ *//')
+  # the baseline command (with xdist); baseline: 395 passed, always-failing: filtering_test::test_time_filter_variation{0,1}, pipelines/regrid_test (collection)
+  PYTHONPATH=$S timeout 7200 /venv/bin/python -m pytest -q -p no:cacheprovider --timeout=900 --continue-on-collection-errors -n 6 dinosaur > $S/.tests.log 2>&1
+  summary=$(tail -1 $S/.tests.log | tr -d '=' | sed 's/^ *//')
+  newfail=$(grep -E '^(FAILED|ERROR) ' $S/.tests.log | grep -v -E 'test_time_filter_variation[01]|pipelines/regrid_test' | cut -c1-120 | tr '\n' ';')
+  tests="$summary | failures outside the baseline always-fail set: [${newfail}]"
 fi
 echo "{\"name\":\"$name\",\"demo_rc_clean\":$clean_rc,\"demo_rc_patched\":$patched_rc,\"tests_with_patch\":\"$tests\",\"demo_patched_tail\":$(tail -3 $S/.demo_patched.log | python3 -c 'import json,sys; print(json.dumps(sys.stdin.read()[-400:]))')}"
